@@ -67,6 +67,11 @@ def scenario(big: bool = False) -> Any:
                 for j, m in enumerate(d["msgs"]):
                     if j > first and j % 2 == (first + 1) % 2 and m["kind"] in ("async", "sync"):
                         m["dup_of"] = first
+        kn = d.pop("kwnames")
+        if kn:
+            for j, m in enumerate(d["msgs"]):
+                if m["kind"] in ("async", "sync") and j % 2 == 1:
+                    m["kwnames"] = kn       # keyword arguments named like the worker's own plumbing (target, args, kwargs)
         ex = d.pop("extra_args")
         if ex:
             for j, m in enumerate(d["msgs"]):
@@ -94,6 +99,7 @@ def scenario(big: bool = False) -> Any:
         "api_restart": st.sampled_from([False] * 7 + [True]),
         "late_labels": st.sampled_from([False, False, True]),
         "same_ids": st.sampled_from([False, False, False, True]),
+        "kwnames": st.sampled_from([None, None, None, ["target"], ["args", "kwargs"], ["target", "kwargs"]]),
         # an additional keyword argument of an unusual but legal value (lone surrogate, 250 levels of nesting, 2**80, emoji)
         "extra_args": st.sampled_from([None, None, None, "surrogate", "deep", "bigint", "emoji"]),      # instant at which the task `dyntask` gets registered on the running worker
     }).map(fin)
